@@ -664,6 +664,16 @@ class ComputeGraph(MultiDiGraph):
         # Imports that the Jacobian assembly emits.  Must be declared BEFORE
         # generate_func_head, which materialises imports into the source file.
         code_gen.declare_local_array_imports()   # backend-specific (numpy / jax.numpy / ...)
+        # functions that only appear through the derivative rules (sign for absv, sigmoid for sigmoid') need their
+        # imports / definitions in the generated module as well
+        for d_expr in list(J0_entries.values()) + [d for entries in J_hist.values() for d in entries.values()]:
+            for fn in self._resolve_derivatives(d_expr).atoms(sp.Function):
+                fn_name = fn.func.__name__
+                if fn_name in getattr(code_gen, '_funcs', {}):
+                    try:
+                        code_gen.get_op(fn_name)
+                    except Exception:
+                        pass
         if sparse:
             if not getattr(code_gen, 'SUPPORTS_SPARSE_JACOBIAN', True):
                 raise NotImplementedError(
@@ -1015,7 +1025,8 @@ class ComputeGraph(MultiDiGraph):
             lambda e: (lambda s: s * (1 - s))(Function('sigmoid')(e.expr.args[0]))
         )
         expr = expr.replace(
-            lambda e: isinstance(e, Derivative) and e.expr.func.__name__ == 'absv',
+            # the backend call name of `absv` is `abs` (see base_funcs): both spellings occur in symbolic right-hand sides
+            lambda e: isinstance(e, Derivative) and e.expr.func.__name__ in ('absv', 'abs'),
             lambda e: Function('sign')(e.expr.args[0])
         )
         # Sympy wraps chain-rule applications of identity/sigmoid/absv in
